@@ -297,12 +297,16 @@ Proof.
     + intros Hc Sh. unfold conv in E. apply (convert_len_pres _ _ _ _ E Hc). destruct x; try discriminate Sh; reflexivity.
 Qed.
 
-Lemma finish_noncoll rt x : is_collection rt = false -> rt <> TNum ->
+Lemma finish_noncoll rt x : is_collection rt = false -> r_lo x = None ->
   finish_unknown rt x = VUnk rt (RExact x).
 Proof.
   intros Hc Hn. unfold finish_unknown. destruct (negb (r_notnull x)); [reflexivity|].
-  destruct rt; try reflexivity; try discriminate Hc. contradiction.
+  destruct rt; try reflexivity; try discriminate Hc. rewrite Hn. reflexivity.
 Qed.
+
+Lemma finish_default_eq want nn :
+  finish_unknown want (mkRefn nn [] None None 0 None) = VUnk want (RExact (mkRefn nn [] None None 0 None)).
+Proof. unfold finish_unknown. simpl. destruct nn; simpl; [|reflexivity]. destruct want; reflexivity. Qed.
 
 Lemma cond_unk_gs rt cds tuA fuA x r :
   inv tuA = true -> inv fuA = true -> inv x = true ->
@@ -350,7 +354,7 @@ Proof.
     destruct (num_hi fuA) as [fhi|] eqn:E4; [|cbn [fst]; simpl; unfold conc; rewrite Wr, Tr; reflexivity].
     cbn [fst]. apply (num_merge_gs tuA fuA x nnb tlo flo thi fhi It If Ix T1 T2 Enn E1 E2 E3 E4 G). }
   destruct (is_collection (type_of tuA) && is_collection (type_of fuA) && ty_eqb (type_of tuA) (type_of fuA)) eqn:Tc.
-  2: { cbn [fst]. apply (unk_default_gs rt nnb r Wr Tr NN). }
+  2: { cbn [fst]. rewrite <- finish_default_eq. apply (unk_default_gs rt nnb r Wr Tr NN). }
   (* length bounds *)
   apply andb_true_iff in Tc as [Tc Teq]. apply andb_true_iff in Tc as [Ct Cf]. apply ty_eqb_eq in Teq.
   destruct (len_lo tuA) as [tl|] eqn:E1; [|cbn [fst]; simpl; unfold conc; rewrite Wr, Tr, conf_refl; reflexivity].
@@ -385,20 +389,7 @@ Proof.
     { destruct (null_shape x) eqn:Nx; [|reflexivity]. exfalso.
       destruct P as [[-> _]|E]; [congruence|]. unfold conv in E. rewrite (convert_null_fwd _ _ _ _ E Nx) in Nrf. discriminate. }
     destruct (Facts Nx) as [Sh B]. rewrite (Lr eq_refl Sh). exact B.
-  - assert (Hn : rt <> TNum).
-    { intros ->. (* the arms are collections of the same type, the result type is their unification *)
-      destruct r; simpl in Tr; try discriminate Tr.
-      - (* a number: impossible, the selected arm is a collection or null *)
-        assert (Nx : null_shape x = false).
-        { destruct (null_shape x) eqn:Nx; [|reflexivity]. exfalso.
-          destruct P as [[E _]|E]; [subst x; discriminate|]. unfold conv in E.
-          pose proof (convert_null_fwd _ _ _ _ E Nx). discriminate. }
-        destruct (Facts Nx) as [Sh _].
-        destruct P as [[E _]|E]; [subst x; discriminate|].
-        unfold conv in E. apply convert_inv in E. destruct x; try discriminate Sh; inversion E; subst; try discriminate.
-      - (* null: fine, handled below through a contradiction-free path *)
-        exfalso. clear -Crt. discriminate. }
-    rewrite (finish_noncoll rt _ Crt Hn). simpl. unfold conc. rewrite Wr, Tr, conf_refl. simpl.
+  - rewrite (finish_noncoll rt (mkRefn nnb [] None None (Z.min tl fl) (merge_len_hi th fh)) Crt eq_refl). simpl. unfold conc. rewrite Wr, Tr, conf_refl. simpl.
     destruct r; try reflexivity; simpl in *.
     + destruct nnb; [specialize (NN eq_refl); discriminate|reflexivity].
     + subst rt. discriminate.
